@@ -88,6 +88,27 @@ class Model:
             self.f[name] = list(vals)
 
 
+def nadd(p, q):
+    return NAN if (isnan(p) or isnan(q)) else p + q
+
+
+def nsub(p, q):
+    return NAN if (isnan(p) or isnan(q)) else p - q
+
+
+def nmul(p, q):
+    return NAN if (isnan(p) or isnan(q)) else p * q
+
+
+def nsum(v, zero):
+    """SUM skips NaN values (documented)"""
+    t = zero
+    for x in v:
+        if not isnan(x):
+            t = t + x
+    return t
+
+
 def apply_model(m, op, fresh, A):
     """returns expected return value (or None)"""
     n = m.n
@@ -109,22 +130,19 @@ def apply_model(m, op, fresh, A):
         return None
     if kind == 'uvoid':
         v = m.get(op[1])
-        m.put(op[2], [NAN] + [v[i] - v[i - 1] for i in range(1, n)])
+        m.put(op[2], [NAN] + [nsub(v[i], v[i - 1]) for i in range(1, n)])
         return None
     if kind == 'svoid':
         v = m.get(op[1])
-        m.put(op[2], [x * A.lift(fresh['k']) for x in v])
+        m.put(op[2], [nmul(x, A.lift(fresh['k'])) for x in v])
         return None
     if kind == 'bvoid':
         v1, v2 = m.get(op[1]), m.get(op[2])
-        m.put(op[3], [p + q for p, q in zip(v1, v2)])
+        m.put(op[3], [nadd(p, q) for p, q in zip(v1, v2)])
         return None
     if kind == 'unary':
         v = m.get(op[1])
-        s = v[0]
-        for x in v[1:]:
-            s = s + x
-        return ('scalar', s)
+        return ('scalar', nsum(v, A.const(0.0)))
     if kind == 'expr':
         e = op[1]
         if '+=' in e:
@@ -146,30 +164,28 @@ def expr_value(rhs, m, A):
     env = lambda nm: m.get(nm)
     if rhs.startswith('D{'):
         v = env(rhs[2:-1])
-        return [NAN] + [v[i] - v[i - 1] for i in range(1, n)]
+        return [NAN] + [nsub(v[i], v[i - 1]) for i in range(1, n)]
     if rhs.startswith('SUM{'):
         s = rhs[4:rhs.index('}')]
         v = env(s)
-        t = v[0]
-        for x in v[1:]:
-            t = t + x
+        t = nsum(v, A.const(0.0))
         w = env(rhs.split('*')[1])
-        return [t * x for x in w]
+        return [nmul(t, x) for x in w]
     if rhs.startswith('('):
         inner, s3 = rhs[1:].split(')*')
         s1, s2 = inner.split('-')
-        return [(p - q) * r for p, q, r in zip(env(s1), env(s2), env(s3))]
+        return [nmul(nsub(p, q), r) for p, q, r in zip(env(s1), env(s2), env(s3))]
     if rhs == '2+1':
         return [A.const(3.0)] * n
     if rhs == 'x+y':
-        return [p + q for p, q in zip(env('x'), env('y'))]
+        return [nadd(p, q) for p, q in zip(env('x'), env('y'))]
     if rhs.endswith('*2') and '+' in rhs:
         s1, s2 = rhs[:-2].split('+')
-        return [p + q * two for p, q in zip(env(s1), env(s2))]
+        return [nadd(p, nmul(q, two)) for p, q in zip(env(s1), env(s2))]
     if rhs.endswith('*2'):
-        return [p * two for p in env(rhs[:-2])]
+        return [nmul(p, two) for p in env(rhs[:-2])]
     if rhs.endswith('+1'):
-        return [p + one for p in env(rhs[:-2])]
+        return [nadd(p, one) for p in env(rhs[:-2])]
     return env(rhs)
 
 
